@@ -170,6 +170,20 @@ reg(Spec("C17", "c17_reset.cpp", needs=("shim", "optable"),
                       "the external (AHBM) world is the caller's: both sides continue with a fresh external memory after Reset",
                       "DMA is configured but not started here (C13/C18 start it); channel select < 8, z/x/y page in {0,1}"]))
 
+reg(Spec("C12", "c12_mmio.cpp", needs=("shim",),
+         cases={"quick": 1500, "thorough": 40000},
+         rule="rapidcheck-generated histories (<=80 ops) on one real Teakra instance (Reset per case, no Run): Write(path, offset, "
+              "value) with offsets 70 % from the documented register list, 15 % their +-1/+-2 undocumented neighbours, 15 % "
+              "uniform 0..0x7FF; values uniform U {0, 0xFFFF, one-hot, 0x40C0, 7/8/9}; paths = host accessor, any of 31 mirrors, "
+              "DSP data path at the (relocatable) window base; CMDi reads, host SendData / SetSemaphore, and a bounded DMA start "
+              "through 0x1DE = 0x40C0. After every op all ~130 side-effect-free documented registers are read back (through "
+              "varying paths) and compared, on their documented bits, with the register-map model transcribed from the *.md "
+              "files. Non-trivial = an op changed the model; distinct by hash of the op list.",
+         assumptions=["timer restart is only written together with a count mode < 4 (watchdog modes are a deliberate ASSERT)",
+                      "bits of bit-field registers that no document describes are not compared; 0x0D8 bit 9 (S') is not compared",
+                      "the DSP data path is used only while z_page = 0 and base + offset fits 16 bits (otherwise it is not the window)",
+                      "memory effects of the DMA start are C13's subject; here only the register file and the ICU bit are compared"]))
+
 # Properties not (yet) claimed. Kept current by hand; every id in properties.jsonl is either in SPECS or here.
 _PENDING = "check not built yet in this round; planned with property-based testing per DESIGN.md"
 NOT_APPLICABLE = [{"property_id": "C%02d" % i, "reason": _PENDING} for i in range(1, 21) if "C%02d" % i not in SPECS]
